@@ -12,6 +12,7 @@ mod sha256;
 mod tr_core;
 mod tr_expr;
 mod tr_loop;
+mod tr_macro;
 mod tr_method;
 mod tr_mut;
 mod tr_pat;
@@ -194,7 +195,7 @@ fn translate_one(
             }
         }
     }
-    let res = translate_fn(&mut tr, sig, block);
+    let res = if t.group == "Macros" { tr_macro::translate_macro_fn(&mut tr, sig, block) } else { translate_fn(&mut tr, sig, block) };
     // hash: the item, and every source item that was consulted to translate it
     let mut hashed = toks;
     for (k, v) in &tr.deps {
